@@ -203,7 +203,7 @@ pub(crate) fn random_case(bytes: &[u8]) -> SetCase {
 pub fn argument_spelling_cases() -> Vec<SetCase> {
     let mut fns = BTreeMap::new();
     fns.insert("fa".to_string(), me::FnSpec { cacheable: true, fail_on: vec![], fail_first: 0, uncacheable_after: 0 });
-    fns.insert("fd".to_string(), me::FnSpec { cacheable: true, fail_on: vec![], fail_first: 0, uncacheable_after: 0 });
+    fns.insert("fc".to_string(), me::FnSpec { cacheable: true, fail_on: vec![], fail_first: 0, uncacheable_after: 0 });
     let m = |a: i128, b: i128| crate::pool::map(&[("a", Value::Int(a)), ("b", Value::Vec(vec![Value::Int(b)]))]);
     let mut symbols = BTreeMap::new();
     symbols.insert("limits".to_string(), m(10, 11));
@@ -237,7 +237,7 @@ pub fn argument_spelling_cases() -> Vec<SetCase> {
         ("literal", Expr::Map([("a".to_string(), Expr::value(10)), ("b".to_string(), Expr::Vec(vec![Expr::value(11)]))].into_iter().collect())),
     ];
     let mut rules: Vec<(String, Expr)> = vec![];
-    for f in ["fa", "fd"] {
+    for f in ["fa", "fc"] {
         for (n, a) in &args {
             rules.push((format!("{f}-{n}"), Expr::func(f, a.clone())));
         }
